@@ -19,6 +19,9 @@ case "${1:-}" in
     (cd mc && go test -count=1 ./exact) || { echo "HARNESS-ERROR: the exact kernel's self-tests fail" >&2; exit 1; }
     "$BIN/verif" warm || exit 1
     exit 0 ;;
+  build)
+    build
+    exit 0 ;;
   replay)
     build
     exec "$BIN/verif" replay "$2" ;;
